@@ -15,10 +15,10 @@ theorem ret_sound (m : M6o) (a : ASt) (f : Nat → Bool) (op : Op) (res : Res) (
   | getKey k => exact ret_getKey m a f k res hK hI hR hout
   | getKeys => exact ret_getKeys m a f res hK hR hout
   | getKeysWithData => exact ret_getKeysWithData m a f res hK hI hR hout
-  | resetRoutine k => exact ret_resetRoutine m a f k res hK hout
-  | restartRoutine k => exact ret_restartRoutine m a f k res hK hout
-  | resetAll => exact ret_resetAll m a f res hK hout
-  | restartAll => exact ret_restartAll m a f res hK hout
+  | resetRoutine k cs => exact ret_resetRoutine m a f k cs res hK hI hout
+  | restartRoutine k cs => exact ret_restartRoutine m a f k cs res hK hI hout
+  | resetAll cs => exact ret_resetAll m a f cs res hK hI hout
+  | restartAll cs => exact ret_restartAll m a f cs res hK hout
   | setContext c r => exact ret_setContext m a f c r res hK hout
   | addKeyRef k => exact ret_addKeyRef m a f k res hK hI hout
   | release r => exact ret_release m a f r res hK hclr hout
